@@ -11,6 +11,8 @@
 #include <condition_variable>
 #include <mutex>
 
+#include "verif_hooks.h"
+
 #if defined(__linux__)
 #include <errno.h>
 #include <linux/futex.h>
@@ -26,6 +28,14 @@ static int futex(
     const struct timespec* timeout,
     int* /*uaddr2*/,
     int val3) {
+#if defined(DISPENSO_VERIF)
+  if (dispenso_verif_futex) {
+    int verifResult = 0;
+    if (dispenso_verif_futex(uaddr, futex_op, val, timeout, &verifResult)) {
+      return verifResult;
+    }
+  }
+#endif // DISPENSO_VERIF
   return static_cast<int>(syscall(SYS_futex, uaddr, futex_op, val, timeout, uaddr, val3));
 }
 } // namespace detail
